@@ -1098,6 +1098,12 @@ func c16kGenProg(rng *rand.Rand, dry bool) *C16KP {
 	if p.Rule != nil && rng.Intn(4) == 0 {
 		p.Deriv = []string{"session", "ctx"}[rng.Intn(2)]
 	}
+	// the counter shape: UpdateAll plus the caller's own assignment of a column the INSERT leaves out
+	if p.Rule != nil && p.Rule.All && !p.Rule.Nothing && p.Src == "struct" && rng.Intn(3) == 0 {
+		c := []int{c16kQty, c16kVer}[rng.Intn(2)]
+		p.Sel, p.Omit = nil, []int{c}
+		p.Rule.Updates = []C16KU{{C: c, T: C16KT{K: "+", A: &C16KT{K: "o", C: c}, B: &C16KT{K: "#", V: 1 + rng.Intn(2)}}}}
+	}
 	// `excluded.c` of a column the INSERT does not list is NULL (three-valued guards): keep every column the rule reads listed
 	if p.Rule != nil {
 		var used []int
